@@ -336,6 +336,16 @@ def gen_c01(rng, idx, tier, faults):
             seq.append({"op": "FIT", "obj": name, "X": xn, "y": yn, "warm": False, "env": mk_env()})
         if rng.random() < 0.3:
             seq.append(gen_read(rng, name, cls))
+        if rng.random() < 0.12:
+            # a cold refit that fit() rejects before touching anything (impossible n_to_select),
+            # the parameter is put back; the selector must still be what its last fit left
+            keep = [o for o in seq if o["op"] == "SET" and "n_to_select" in o["params"]]
+            good = keep[-1]["params"]["n_to_select"] if keep else p["n_to_select"]
+            seq.append({"op": "SET", "obj": name, "params": {"n_to_select": rng.choice([0, -2, 1.5, n_from + 9])}})
+            seq.append({"op": "FIT", "obj": name, "X": curX, "y": curY, "warm": False, "env": None, "expect_fail": True, "rejected_refit": True, "untouched": True})
+            seq.append({"op": "SET", "obj": name, "params": {"n_to_select": good}})
+        if isinstance(p.get("initialize"), dict) and "$ndarray" in p["initialize"] and rng.random() < 0.5:
+            seq.append({"op": "SCRIBBLE_PARAM", "obj": name, "param": "initialize"})
         plans.append(seq)
     # interleave the objects' sequences, keeping each object's order
     while any(plans):
